@@ -1,7 +1,90 @@
-/- C18 line-protocol driver (core-only). Stub until the property's model lands. -/
+/- C18 line-protocol driver (core-only). -/
+import BV.C18.Model
 namespace BV.C18.Driver
+open BV.C18
+
+def kindName : Kind → String
+  | .version => "version" | .verack => "verack" | .sendaddrv2 => "sendaddrv2"
+  | .ping => "ping" | .pong => "pong" | .getaddr => "getaddr" | .addr => "addr"
+  | .mempool => "mempool" | .sendheaders => "sendheaders" | .feefilter => "feefilter"
+  | .inv => "inv" | .headers => "headers" | .getheaders => "getheaders"
+  | .getblocks => "getblocks" | .getdata => "getdata" | .notfound => "notfound"
+  | .reject => "reject" | .filterclear => "filterclear" | .cfcheckpt => "cfcheckpt"
+
+def allKinds : List Kind :=
+  [.version, .verack, .sendaddrv2, .ping, .pong, .getaddr, .addr, .mempool, .sendheaders,
+   .feefilter, .inv, .headers, .getheaders, .getblocks, .getdata, .notfound, .reject,
+   .filterclear, .cfcheckpt]
+
+def parseKind? (s : String) : Option Kind := allKinds.find? (fun k => kindName k == s)
+
+def parseBool? (s : String) : Option Bool :=
+  if s == "1" then some true else if s == "0" then some false else none
+
+/-- nonce of the flush ping the scripted remote uses (`F`) -/
+def flushNonce : Nat := 0xF1F1F1F1F1F1F1F1
+
+def parseTok? (s : String) : Option Tok :=
+  match s.splitOn ":" with
+  | ["v", p, self] => do
+    let p ← p.toNat?
+    let b ← parseBool? self
+    if p < 2^32 then pure (.version p b) else none
+  | ["m", k] => do
+    let k ← parseKind? k
+    if k = .version ∨ k = .ping then none else pure (.msg k)
+  | ["p", n] => do
+    let n ← n.toNat?
+    if n < 2^64 then pure (.ping n) else none
+  | ["F"] => some (.ping flushNonce)
+  | ["pe"] => some .pingEmpty
+  | ["ps"] => some .pingShort
+  | ["unk"] => some .unknown
+  | ["magic"] => some .wrongMagic
+  | ["cksum"] => some .badChecksum
+  | ["badcmd"] => some .badCommand
+  | ["extra"] => some .extraBytes
+  | ["big"] => some .oversize
+  | ["mpl"] => some .overMpl
+  | ["trunc"] => some .trunc
+  | _ => none
+
+def parseToks? (s : String) : Option (List Tok) :=
+  if s == "-" then some [] else (s.splitOn ",").mapM parseTok?
+
+def rdName : Rd → String
+  | .version _ _ => "version" | .ping _ => "ping" | .other k => kindName k
+  | .unknown => "unknown" | .merr => "merr" | .eof => "eof" | .ueof => "ueof"
+
+def rcmdName : RCmd → String
+  | .version => "version" | .verack => "verack" | .malformed => "malformed"
+
+def wName : W → String
+  | .version a => s!"version({a})" | .verack => "verack" | .sendaddrv2 => "sendaddrv2"
+  | .pong n => s!"pong({n})" | .reject c code => s!"reject({rcmdName c}/{code})"
+
+def joinOrDash (xs : List String) : String :=
+  if xs.isEmpty then "-" else ",".intercalate xs
+
+def render (s : St) (es : List Ev) : String :=
+  let rds := es.filterMap (fun e => match e with | .rd r => some (rdName r) | _ => none)
+  let cbs := es.filterMap (fun e => match e with | .cb k => some (kindName k) | _ => none)
+  let ws := es.filterMap (fun e => match e with | .wr w => some (wName w) | _ => none)
+  let b (x : Bool) : String := if x then "1" else "0"
+  s!"rd={joinOrDash rds} cb={joinOrDash cbs} w={joinOrDash ws} pver={s.pver} vk={b s.versionKnown} va={b s.verAck}"
 
 def handle : List String → String
-  | _ => "unimplemented"
+  | ["hs", dir, ours, allowSelf, net, host, rejVer, toks] =>
+    match (if dir == "in" then some true else if dir == "out" then some false else none),
+          ours.toNat?, parseBool? allowSelf,
+          (if net == "reg" then some true else if net == "main" then some false else none),
+          (if host == "local" then some true else if host == "remote" then some false else none),
+          parseBool? rejVer, parseToks? toks with
+    | some inbound, some ours, some as, some reg, some loc, some rv, some ts =>
+      if ours = 0 ∨ ours ≥ 2^32 then "bad-op" else
+      let (s, es) := run ⟨inbound, ours, as, reg && loc, rv⟩ ts
+      render s es
+    | _, _, _, _, _, _, _ => "bad-op"
+  | _ => "bad-op"
 
 end BV.C18.Driver
